@@ -1,0 +1,221 @@
+//go:build verif
+
+package forkchoice
+
+// Contracts for govc (see /verif/DESIGN.md). Comment-only: no declarations.
+
+// ---------------------------------------------------------------- interface models (assumed)
+//
+// The wrapper talks to its graph and vote store through interfaces.  Their
+// methods get abstract models: query results are uninterpreted functions of a
+// ghost version of the abstract graph (gver: nodes; wver: weights/best links;
+// vver: votes), mutators advance the version they change.  gcache stands for
+// the lazily updated best-child links that queries may write.
+// That proto.ProtoArray / proto.ProtoVoteStore implement these models is the
+// subject of the contracts in package proto.
+
+//@ ghost gver int
+//@ ghost wver int
+//@ ghost vver int
+//@ ghost gcache int
+//@ sort RootT = Root
+//@ sort NodeRefT = NodeRef
+//@ sort SlotT = Slot
+//@ ufun g_unknown(int, RootT, RootT) bool
+//@ ufun g_insub(int, RootT, RootT) bool
+//@ ufun g_has(int, RootT) bool
+//@ ufun g_slot(int, RootT) SlotT
+//@ ufun g_closest_err(int, RootT, SlotT) bool
+//@ ufun g_closest(int, RootT, SlotT) NodeRefT
+//@ ufun g_head_err(int, int, RootT, SlotT) bool
+//@ ufun g_head(int, int, RootT, SlotT) NodeRefT
+
+//@ func (g ForkchoiceView) InSubtree(anchor, root) (unknown, inSubtree)
+//@   trusted
+//@   assigns ghost(gcache)
+//@   ensures unknown == g_unknown(gver, anchor, root) && inSubtree == g_insub(gver, anchor, root)
+
+//@ func (g ForkchoiceView) ClosestToSlot(anchor, slot) (closest, err)
+//@   trusted
+//@   ensures (err != nil) == g_closest_err(gver, anchor, slot)
+//@   ensures err == nil ==> closest == g_closest(gver, anchor, slot)
+
+//@ func (g ForkchoiceView) GetSlot(blockRoot) (slot, ok)
+//@   trusted
+//@   ensures ok == g_has(gver, blockRoot)
+//@   ensures ok ==> slot == g_slot(gver, blockRoot)
+
+//@ func (g ForkchoiceView) FindHead(anchorRoot, anchorSlot) (ref, err)
+//@   trusted
+//@   assigns ghost(gcache)
+//@   ensures (err != nil) == g_head_err(gver, wver, anchorRoot, anchorSlot)
+//@   ensures err == nil ==> ref == g_head(gver, wver, anchorRoot, anchorSlot)
+
+//@ func (g ForkchoiceView) CanonicalChain(anchorRoot, anchorSlot) (chain, err)
+//@   trusted
+//@   assigns ghost(gcache)
+
+//@ func (g ForkchoiceView) CanonAtSlot(anchor, slot, withBlock) (at, err)
+//@   trusted
+//@   assigns ghost(gcache)
+
+//@ func (g ForkchoiceView) Search(anchor, parentRoot, slot) (nonCanon, canon, err)
+//@   trusted
+//@   assigns ghost(gcache)
+
+//@ func (g ForkchoiceNodeInput) ProcessSlot(parent, slot, justifiedEpoch, finalizedEpoch)
+//@   trusted
+//@   assigns ghost(gver)
+
+//@ func (g ForkchoiceNodeInput) ProcessBlock(parent, blockRoot, blockSlot, justifiedEpoch, finalizedEpoch) ok
+//@   trusted
+//@   assigns ghost(gver)
+
+//@ func (g ForkchoiceGraph) Indices() m
+//@   trusted
+
+//@ func (g ForkchoiceGraph) ApplyScoreChanges(deltas, justifiedEpoch, finalizedEpoch) err
+//@   trusted
+//@   assigns ghost(wver), deltas
+
+//@ func (g ForkchoiceGraph) OnPrune(ctx, anchorRoot, anchorSlot) err
+//@   trusted
+//@   assigns ghost(gver)
+
+//@ func (v VoteInput) ProcessAttestation(index, blockRoot, headSlot) ok
+//@   trusted
+//@   assigns ghost(vver)
+
+//@ func (v VoteStore) HasChanges() r
+//@   trusted
+
+//@ func (v VoteStore) ComputeDeltas(indices, oldBalances, newBalances) deltas
+//@   trusted
+//@   assigns ghost(vver)
+
+// ---------------------------------------------------------------- ProtoForkChoice (C10, C17)
+
+//@ guarded ProtoForkChoice mu: protoArray voteStore balances pin justified finalized
+
+// updateJustified is the internal helper of UpdateJustified and runs under the
+// exclusive lock.  NewForkChoice also calls it, before the object is shared;
+// the constructor is not under contract (stated in DESIGN.md).
+
+//@ func (fc *ProtoForkChoice) UpdateJustified(ctx, trigger, justified, finalized, justifiedStateBalances) err
+//@   property C10 C17
+//@   opt pure_func=justifiedStateBalances
+//@   requires fc != nil && held(fc.mu) == 0 && fc.spec != nil && fc.spec.SLOTS_PER_EPOCH != 0 && fc.protoArray != nil && fc.voteStore != nil
+//@   assigns fc.balances, fc.justified, fc.finalized, fc.pin, ghost(gver), ghost(wver), ghost(vver), ghost(gcache)
+//@   ensures released: held(fc.mu) == 0
+//@   ensures stale: old(fc.justified.Epoch) >= justified.Epoch && old(fc.finalized.Epoch) >= finalized.Epoch ==> err == nil && unchanged(fc.justified) && unchanged(fc.finalized) && unchanged(fc.pin) && gver == old(gver) && wver == old(wver) && vver == old(vver)
+//@   ensures applied: err == nil && !(old(fc.justified.Epoch) >= justified.Epoch && old(fc.finalized.Epoch) >= finalized.Epoch) ==> fc.justified == justified && fc.finalized == finalized
+//@   ensures refused_finalized: !(old(fc.justified.Epoch) >= justified.Epoch && old(fc.finalized.Epoch) >= finalized.Epoch) && finalized != old(fc.finalized) && (g_unknown(old(gver), old(fc.finalized.Root), finalized.Root) || !g_insub(old(gver), old(fc.finalized.Root), finalized.Root)) ==> err != nil && unchanged(fc.justified) && unchanged(fc.finalized) && gver == old(gver) && wver == old(wver)
+//@   ensures refused_justified: !(old(fc.justified.Epoch) >= justified.Epoch && old(fc.finalized.Epoch) >= finalized.Epoch) && justified != old(fc.justified) && (g_unknown(old(gver), old(fc.finalized.Root), justified.Root) || !g_insub(old(gver), old(fc.finalized.Root), justified.Root)) ==> err != nil && unchanged(fc.justified) && unchanged(fc.finalized) && gver == old(gver) && wver == old(wver)
+
+//@ func (fc *ProtoForkChoice) updateJustified(finalized, justified, justifiedStateBalances) err
+//@   property C10 C17
+//@   opt pure_func=justifiedStateBalances
+//@   requires fc != nil && held(fc.mu) == 2 && fc.protoArray != nil && fc.voteStore != nil
+//@   assigns fc.balances, fc.justified, fc.finalized, ghost(wver), ghost(vver), ghost(gcache)
+//@   ensures lock: held(fc.mu) == 2
+//@   ensures applied: err == nil ==> fc.justified == justified && fc.finalized == finalized
+//@   ensures failed: err != nil ==> unchanged(fc.justified) && unchanged(fc.finalized) && unchanged(fc.balances)
+//@   ensures refused_finalized: finalized != old(fc.finalized) && (g_unknown(gver, old(fc.finalized.Root), finalized.Root) || !g_insub(gver, old(fc.finalized.Root), finalized.Root)) ==> err != nil
+//@   ensures refused_justified: justified != old(fc.justified) && (g_unknown(gver, old(fc.finalized.Root), justified.Root) || !g_insub(gver, old(fc.finalized.Root), justified.Root)) ==> err != nil
+//@   ensures refused_order: justified.Epoch < finalized.Epoch ==> err != nil
+//@   ensures refused_frame: justified.Epoch < finalized.Epoch || (finalized != old(fc.finalized) && (g_unknown(gver, old(fc.finalized.Root), finalized.Root) || !g_insub(gver, old(fc.finalized.Root), finalized.Root))) || (justified != old(fc.justified) && (g_unknown(gver, old(fc.finalized.Root), justified.Root) || !g_insub(gver, old(fc.finalized.Root), justified.Root))) ==> wver == old(wver) && vver == old(vver)
+
+//@ func (fc *ProtoForkChoice) updateVotesMaybe() err
+//@   property C17
+//@   requires fc != nil && held(fc.mu) == 2 && fc.protoArray != nil && fc.voteStore != nil
+//@   assigns ghost(wver), ghost(vver)
+//@   ensures held(fc.mu) == 2
+
+//@ func (fc *ProtoForkChoice) SetPin(root, slot) err
+//@   property C10 C17
+//@   requires fc != nil && held(fc.mu) == 0 && fc.protoArray != nil
+//@   assigns fc.pin
+//@   ensures released: held(fc.mu) == 0
+//@   ensures pinned: err == nil ==> fc.pin != nil && fc.pin.Root == root && fc.pin.Slot == slot
+//@   ensures refused: g_closest_err(gver, root, slot) || g_closest(gver, root, slot).Slot < slot ==> err != nil && unchanged(fc.pin)
+
+//@ func (fc *ProtoForkChoice) Pin() r
+//@   property C17
+//@   requires fc != nil && held(fc.mu) == 0
+//@   ensures held(fc.mu) == 0 && r == fc.pin
+
+//@ func (fc *ProtoForkChoice) Justified() r
+//@   property C17
+//@   requires fc != nil && held(fc.mu) == 0
+//@   ensures held(fc.mu) == 0 && r == fc.justified
+
+//@ func (fc *ProtoForkChoice) Finalized() r
+//@   property C17
+//@   requires fc != nil && held(fc.mu) == 0
+//@   ensures held(fc.mu) == 0 && r == fc.finalized
+
+//@ func (fc *ProtoForkChoice) ProcessAttestation(index, blockRoot, headSlot) ok
+//@   property C17
+//@   requires fc != nil && held(fc.mu) == 0 && fc.protoArray != nil && fc.voteStore != nil
+//@   assigns ghost(vver)
+//@   ensures held(fc.mu) == 0
+//@   ensures unknown_block: !g_has(gver, blockRoot) || g_slot(gver, blockRoot) < headSlot ==> !ok && vver == old(vver)
+
+//@ func (fc *ProtoForkChoice) CanonicalChain(anchorRoot, anchorSlot) (chain, err)
+//@   property C17
+//@   requires fc != nil && held(fc.mu) == 0 && fc.protoArray != nil
+//@   assigns ghost(gcache)
+//@   ensures held(fc.mu) == 0
+
+//@ func (fc *ProtoForkChoice) ProcessSlot(parentRoot, slot, justifiedEpoch, finalizedEpoch)
+//@   property C17
+//@   requires fc != nil && held(fc.mu) == 0 && fc.protoArray != nil
+//@   assigns ghost(gver)
+//@   ensures held(fc.mu) == 0
+
+//@ func (fc *ProtoForkChoice) ProcessBlock(parentRoot, blockRoot, blockSlot, justifiedEpoch, finalizedEpoch) ok
+//@   property C17
+//@   requires fc != nil && held(fc.mu) == 0 && fc.protoArray != nil
+//@   assigns ghost(gver)
+//@   ensures held(fc.mu) == 0
+
+//@ func (fc *ProtoForkChoice) InSubtree(anchor, root) (unknown, inSubtree)
+//@   property C17
+//@   requires fc != nil && held(fc.mu) == 0 && fc.protoArray != nil
+//@   assigns ghost(gcache)
+//@   ensures held(fc.mu) == 0
+//@   ensures unknown == g_unknown(gver, anchor, root) && inSubtree == g_insub(gver, anchor, root)
+
+//@ func (fc *ProtoForkChoice) Search(anchor, parentRoot, slot) (nonCanon, canon, err)
+//@   property C17
+//@   requires fc != nil && held(fc.mu) == 0 && fc.protoArray != nil
+//@   assigns ghost(gcache)
+//@   ensures held(fc.mu) == 0
+
+//@ func (fc *ProtoForkChoice) ClosestToSlot(anchor, slot) (ref, err)
+//@   property C17
+//@   requires fc != nil && held(fc.mu) == 0 && fc.protoArray != nil
+//@   ensures held(fc.mu) == 0
+
+//@ func (fc *ProtoForkChoice) CanonAtSlot(anchor, slot, withBlock) (closest, err)
+//@   property C17
+//@   requires fc != nil && held(fc.mu) == 0 && fc.protoArray != nil
+//@   assigns ghost(gcache)
+//@   ensures held(fc.mu) == 0
+
+//@ func (fc *ProtoForkChoice) GetSlot(root) (slot, ok)
+//@   property C17
+//@   requires fc != nil && held(fc.mu) == 0 && fc.protoArray != nil
+//@   ensures held(fc.mu) == 0
+
+//@ func (fc *ProtoForkChoice) FindHead(anchorRoot, anchorSlot) (ref, err)
+//@   property C17
+//@   requires fc != nil && held(fc.mu) == 0 && fc.protoArray != nil && fc.voteStore != nil
+//@   assigns ghost(wver), ghost(vver), ghost(gcache)
+//@   ensures held(fc.mu) == 0
+
+//@ func (fc *ProtoForkChoice) Head() (ref, err)
+//@   property C17
+//@   requires fc != nil && held(fc.mu) == 0 && fc.protoArray != nil && fc.voteStore != nil && fc.spec != nil && fc.spec.SLOTS_PER_EPOCH != 0
+//@   assigns ghost(wver), ghost(vver), ghost(gcache)
+//@   ensures held(fc.mu) == 0
